@@ -165,7 +165,13 @@ Definition fs_old (p : proj) : fs :=
        (if 0 <? n_imm p then oldf else absent) (if has_compdb p then oldf else absent) (repeat oldf (n_imm p)) absent.
 
 (* ---- the edit (epoch 3) ---- *)
-Record edit := mkE { e_script : bool;   (* build.bfg edited: an explicit input is newer than the outputs *)
+(* input_mt is the newest time stamp of the explicit inputs of the regeneration step: build.bfg, the submodule and option
+   scripts, and the toolchain file of configure --toolchain FILE (builtins/regenerate.py _inputs).  The model uses this ONE
+   list twice: as the prerequisites of the regeneration rule in the build file (make_attempt: does make start bfg9000) and
+   as the inputs persisted in .bfg_find_cache (lazy_decision: does regenerate --lazy see something newer).  That the two
+   lists are the same set is checked on every recorded project (harness/c10.py oracle:regen_inputs); the edit kind
+   toolchain (only that file is rewritten) is an e_script edit. *)
+Record edit := mkE { e_script : bool;   (* build.bfg / a script / the toolchain file edited: an explicit input is newer than the outputs *)
                      e_dir : bool;      (* a file matched by find_files was added: results differ, directory newer *)
                      e_touch : bool }.  (* a watched directory changed without changing any find result *)
 Definition input_mt (e : edit) := if e_script e then 3 else 1.
